@@ -238,7 +238,47 @@ def check_surface(case, ctx):
         for e_ in twins:
             e_.add_trim(shared_trim)
         ctx.tag('transpose:container-shared-trim')
+    shared_loop = None
+    if shared_trim is None and rng.random() < 0.6:
+        # (fifth hunt) ... or whose trim loops are two CurveContainer objects built from the SAME three curves: every curve is
+        # transposed once, whatever number of loops it belongs to
+        from geomdl import BSpline as _BS, knotvector as _KV2
+        (ua_, ub_), (va_, vb_) = G.domains_of(s1)
+        corners_ = [(0.1, 0.2), (0.6, 0.2), (0.3, 0.7)]
+        shared_loop = []
+        for k_ in range(3):
+            c_ = _BS.Curve()
+            c_.degree = 1
+            c_.ctrlpts = [[ua_ + x_ * (ub_ - ua_), va_ + y_ * (vb_ - va_)] for x_, y_ in (corners_[k_], corners_[(k_ + 1) % 3])]
+            c_.knotvector = [0.0, 0.0, 1.0, 1.0]
+            shared_loop.append(c_)
+        loop_pts_ = [[list(p_) for p_ in c_.ctrlpts] for c_ in shared_loop]
+        for e_ in twins:
+            e_.add_trim(_multi.CurveContainer(*shared_loop))
+        ctx.tag('transpose:container-shared-loop-curves')
+    cont_ss = None
+    if rng.random() < 0.5:
+        # (fifth hunt) the CONTAINER's sampling per direction changes places as well: it is what the elements are sampled with
+        cont_ss = rng.sample([3, 4, 5, 6], 2)
+        twins.sample_size_u, twins.sample_size_v = cont_ss
+        if rng.random() < 0.5:
+            _ = twins.evalpts
+        ctx.tag('transpose:container-sampling-per-direction')
     tt_ = operations.transpose(twins, inplace=rng.random() < 0.5)
+    if cont_ss is not None:
+        n_pts = len(tt_.evalpts)
+        got_ss = [(e_.sample_size_u, e_.sample_size_v) for e_ in tt_]
+        ctx.check((tt_.sample_size_u, tt_.sample_size_v) == (cont_ss[1], cont_ss[0]) and all(g_ == (cont_ss[1], cont_ss[0]) for g_ in got_ss) and
+                  n_pts == 2 * cont_ss[0] * cont_ss[1], 'transpose/container-sampling-not-swapped', 'transpose of a container sampled %d x %d: the result '
+                  'is sampled %r x %r, its surfaces (after its points were read) %r' % (cont_ss[0], cont_ss[1], tt_.sample_size_u, tt_.sample_size_v, got_ss),
+                  what='transpose')
+    if shared_loop is not None:
+        exp_loop = [[[p_[1], p_[0]] for p_ in reversed(cp_)] for cp_ in reversed(loop_pts_)]
+        for k_, e_ in enumerate(tt_):
+            got_loop = [[[round(c_, 9) for c_ in p_] for p_ in c2_.ctrlpts] for c2_ in e_.trims[0]]
+            ctx.check(len(got_loop) == 3 and all(close(a_, b_) for a_, b_ in zip(got_loop, exp_loop)), 'transpose/shared-trim-transposed-twice',
+                      'transpose of a container whose two surfaces carry trim loops built from the same three curves: the loop of surface %d is %r, '
+                      'the (v, u)-swapped and reversed loop is %r' % (k_, got_loop, exp_loop), what='transpose')
     if shared_trim is not None:
         got_ = [sorted([round(c_, 9) for c_ in p_] for p_ in e_.trims[0].ctrlpts) for e_ in tt_]
         exp_ = sorted([round(p_[1], 9), round(p_[0], 9)] for p_ in tl_)
